@@ -183,33 +183,39 @@ pub fn opt_variants() -> Vec<Rec> {
 
 /// All messages with a question and at most `k` records in total spread over the sections,
 /// records drawn from `menu`; OPT (from `opts`, may be empty) placed at every position of the
-/// additional section or absent. Calls `f` for each message. Response flag set iff it has an/ns.
-pub fn messages(qnames: &[Name], menu: &[Rec], opts: &[Rec], k: usize, mut f: impl FnMut(&Msg)) {
-    // choose counts (a, n, r) with a+n+r <= k
+/// additional section or absent. `want(group)` selects record tuples (for sharding); `f` is
+/// called for each message of a wanted tuple. Returns the number of tuples (groups).
+pub fn messages(qnames: &[Name], menu: &[Rec], opts: &[Rec], k: usize, want: &dyn Fn(u64) -> bool, mut f: impl FnMut(&Msg)) -> u64 {
+    let mut group = 0u64;
     for qn in qnames {
         for total in 0..=k {
             for a in 0..=total {
                 for n in 0..=(total - a) {
-                    let r = total - a - n;
-                    let slots = a + n + r;
-                    let radices = vec![menu.len(); slots];
+                    let slots = total;
                     if slots == 0 {
-                        emit_with_opt(qn, &[], 0, 0, opts, &mut f);
+                        if want(group) {
+                            emit_with_opt(qn, &[], 0, 0, opts, &mut f);
+                        }
+                        group += 1;
                         continue;
                     }
+                    let radices = vec![menu.len(); slots];
                     product(&radices, |idx| {
-                        let recs: Vec<Rec> = idx.iter().map(|&i| menu[i].clone()).collect();
-                        emit_with_opt(qn, &recs, a, n, opts, &mut f);
+                        if want(group) {
+                            let recs: Vec<Rec> = idx.iter().map(|&i| menu[i].clone()).collect();
+                            emit_with_opt(qn, &recs, a, n, opts, &mut f);
+                        }
+                        group += 1;
                     });
                 }
             }
         }
     }
+    group
 }
 
 fn emit_with_opt(qn: &Name, recs: &[Rec], a: usize, n: usize, opts: &[Rec], f: &mut impl FnMut(&Msg)) {
-    let response = true;
-    let mut m = base_msg(qn, T_A, response);
+    let mut m = base_msg(qn, T_A, true);
     m.an = recs[..a].to_vec();
     m.ns = recs[a..a + n].to_vec();
     m.ar = recs[a + n..].to_vec();
@@ -226,6 +232,36 @@ fn emit_with_opt(qn: &Name, recs: &[Rec], a: usize, n: usize, opts: &[Rec], f: &
             f(&m2);
         }
     }
+}
+
+/// Every accepted packet met in the byte/field-level families (L2, L2pair-like, L4 closure, L5 chains):
+/// calls f(index, packet) for those that satisfy the policy.
+pub fn accepted_low_level(level: usize, mut f: impl FnMut(u64, &[u8])) -> u64 {
+    let mut n = 0u64;
+    one_record_packets(|_, p| {
+        if wf(p).is_ok() {
+            f(n, p);
+            n += 1;
+        }
+    });
+    for s in closure_seeds(level) {
+        damage_closure(&s, |_, p| {
+            if wf(p).is_ok() {
+                f(n, p);
+                n += 1;
+            }
+        });
+    }
+    for k in 0..=16 {
+        for sl in [1usize, 13, 14] {
+            let p = pointer_chain_packet(k, sl);
+            if wf(&p).is_ok() {
+                f(n, &p);
+                n += 1;
+            }
+        }
+    }
+    n
 }
 
 // ---------------------------------------------------------------------------------------------
